@@ -190,7 +190,15 @@ type CondEdge struct {
 
 // condEdges returns, for boolean value v, every If edge on which v's truth value is known:
 // If(v), If(!v), If(v == true/false), and short-circuit phi chains are NOT followed (the repo's idioms branch directly).
-func condEdges(v ssa.Value) []CondEdge {
+func condEdges(v0 ssa.Value) []CondEdge {
+	var out []CondEdge
+	for _, v := range aliases(v0) {
+		out = append(out, condEdges1(v)...)
+	}
+	return out
+}
+
+func condEdges1(v ssa.Value) []CondEdge {
 	var out []CondEdge
 	var walk func(x ssa.Value, neg bool, depth int)
 	walk = func(x ssa.Value, neg bool, depth int) {
@@ -230,7 +238,15 @@ func condEdges(v ssa.Value) []CondEdge {
 }
 
 // nilEdges returns If edges on which value v is known nil (Val=true) / non-nil (Val=false).
-func nilEdges(v ssa.Value) []CondEdge {
+func nilEdges(v0 ssa.Value) []CondEdge {
+	var out []CondEdge
+	for _, v := range aliases(v0) {
+		out = append(out, nilEdges1(v)...)
+	}
+	return out
+}
+
+func nilEdges1(v ssa.Value) []CondEdge {
 	var out []CondEdge
 	refs := v.Referrers()
 	if refs == nil {
@@ -487,7 +503,9 @@ func returnsNilError(ret *ssa.Return) (isNil bool, known bool) {
 	return valueIsNil(ret.Results[idx], ret, 0)
 }
 
-// valueIsNil decides whether value v (used at instruction `at`) is definitely nil / definitely non-nil-or-unknown.
+// valueIsNil decides whether value v (used at instruction `at`) is definitely nil (true,true), definitely non-nil
+// (false,true) or unknown (_,false). Branch facts are honoured: a call result that every path from its definition to
+// `at` has tested == nil (resp. != nil) is known.
 func valueIsNil(v ssa.Value, at ssa.Instruction, depth int) (isNil bool, known bool) {
 	if depth > 6 {
 		return false, false
@@ -496,61 +514,20 @@ func valueIsNil(v ssa.Value, at ssa.Instruction, depth int) (isNil bool, known b
 	if isNilConst(v) {
 		return true, true
 	}
-	switch x := v.(type) {
-	case *ssa.Const:
-		return false, true
-	case *ssa.Call:
-		// call results: errors.New / fmt.Errorf / mysql.NewError style constructors are non-nil
-		if f := x.Call.StaticCallee(); f != nil {
-			n := f.Name()
-			if strings.HasPrefix(n, "New") || strings.HasPrefix(n, "Errorf") || n == "Wrap" || n == "Wrapf" || n == "Trace" {
-				return false, true
-			}
-		}
-		return false, false
-	case *ssa.MakeInterface:
-		return false, true
-	case *ssa.Alloc:
-		return false, true
-	case *ssa.UnOp:
-		if x.Op == token.MUL {
-			if cell, isCell := x.X.(*ssa.Alloc); isCell {
-				sts, zero, ok := reachingStores(cell, x)
-				if ok && len(sts)+b2i(zero) > 0 {
-					allNil, allNon := true, !zero
-					for _, st := range sts {
-						n, k := valueIsNil(st.Val, st, depth+1)
-						if !k {
-							return false, false
-						}
-						if n {
-							allNon = false
-						} else {
-							allNil = false
-						}
-					}
-					if allNil {
-						return true, true
-					}
-					if allNon {
-						return false, true
-					}
-					return false, false
-				}
-			}
-		}
-	case *ssa.Phi:
+	combine := func(parts [][2]bool) (bool, bool) {
 		allNil, allNon := true, true
-		for _, e := range x.Edges {
-			n, k := valueIsNil(e, at, depth+1)
-			if !k {
+		for _, p := range parts {
+			if !p[1] {
 				return false, false
 			}
-			if n {
+			if p[0] {
 				allNon = false
 			} else {
 				allNil = false
 			}
+		}
+		if len(parts) == 0 {
+			return false, false
 		}
 		if allNil {
 			return true, true
@@ -558,14 +535,145 @@ func valueIsNil(v ssa.Value, at ssa.Instruction, depth int) (isNil bool, known b
 		if allNon {
 			return false, true
 		}
+		return false, false
 	}
-	// global error variables (var ErrX = errors.New(...)) loaded: non-nil by convention
-	if u, ok := v.(*ssa.UnOp); ok && u.Op == token.MUL {
-		if _, ok := u.X.(*ssa.Global); ok {
-			return false, true
+	switch x := v.(type) {
+	case *ssa.Const:
+		return false, true
+	case *ssa.MakeInterface, *ssa.Alloc, *ssa.MakeClosure, *ssa.MakeMap, *ssa.MakeSlice, *ssa.MakeChan:
+		return false, true
+	case *ssa.Call, *ssa.Extract:
+		def := x.(ssa.Instruction)
+		if at != nil {
+			if factOnAllPaths(v, def, at, true) {
+				return true, true
+			}
+			if factOnAllPaths(v, def, at, false) {
+				return false, true
+			}
 		}
+		if call, ok := x.(*ssa.Call); ok {
+			// error constructors are non-nil
+			if f := call.Call.StaticCallee(); f != nil {
+				n := f.Name()
+				if strings.HasPrefix(n, "New") || strings.HasPrefix(n, "Errorf") || n == "Wrap" || n == "Wrapf" || n == "Trace" {
+					return false, true
+				}
+			}
+		}
+		return false, false
+	case *ssa.UnOp:
+		if x.Op == token.MUL {
+			if _, ok := x.X.(*ssa.Global); ok {
+				return false, true // package-level error variables (var ErrX = errors.New(...)) are non-nil by convention
+			}
+			if cell, isCell := x.X.(*ssa.Alloc); isCell {
+				sts, zero, ok := reachingStores(cell, x)
+				if ok && len(sts)+b2i(zero) > 0 {
+					var parts [][2]bool
+					if zero {
+						parts = append(parts, [2]bool{true, true})
+					}
+					for _, st := range sts {
+						sv := stripValue(st.Val)
+						if _, isDef := sv.(ssa.Instruction); isDef && at != nil {
+							if factOnAllPaths(sv, st, at, true) {
+								parts = append(parts, [2]bool{true, true})
+								continue
+							}
+							if factOnAllPaths(sv, st, at, false) {
+								parts = append(parts, [2]bool{false, true})
+								continue
+							}
+						}
+						n, k := valueIsNil(st.Val, st, depth+1)
+						parts = append(parts, [2]bool{n, k})
+					}
+					return combine(parts)
+				}
+			}
+		}
+	case *ssa.Phi:
+		var parts [][2]bool
+		for i, e := range x.Edges {
+			var pat ssa.Instruction
+			if i < len(x.Block().Preds) {
+				p := x.Block().Preds[i]
+				pat = p.Instrs[len(p.Instrs)-1]
+			}
+			// the fact may be established on the very edge pred -> phi block
+			if i < len(x.Block().Preds) {
+				p := x.Block().Preds[i]
+				decided := false
+				for _, ne := range nilEdges(stripValue(e)) {
+					if ne.If.Block() == p && p.Succs[ne.Succ] == x.Block() {
+						other := 1 - ne.Succ
+						if other < len(p.Succs) && p.Succs[other] == x.Block() {
+							continue // both successors are the phi block: edge gives no fact
+						}
+						parts = append(parts, [2]bool{ne.Val, true})
+						decided = true
+						break
+					}
+				}
+				if decided {
+					continue
+				}
+			}
+			n, k := valueIsNil(e, pat, depth+1)
+			parts = append(parts, [2]bool{n, k})
+		}
+		return combine(parts)
 	}
 	return false, false
+}
+
+// factOnAllPaths: every CFG path from instruction `from` to instruction `to` crosses an If edge on which v (or one of
+// its aliases) is known nil (wantNil) / non-nil (!wantNil). False when `to` is not reachable at all.
+func factOnAllPaths(v ssa.Value, from, to ssa.Instruction, wantNil bool) bool {
+	cut := map[[2]int]bool{}
+	for _, e := range nilEdges(v) {
+		if e.Val == wantNil {
+			cut[[2]int{e.If.Block().Index, e.Succ}] = true
+		}
+	}
+	if len(cut) == 0 {
+		return false
+	}
+	if from.Block() == to.Block() && instrIndex(from) < instrIndex(to) {
+		return false // reaches `to` without crossing any edge
+	}
+	reachedPlain := false
+	reachable := false
+	seen := map[*ssa.BasicBlock]bool{}
+	var stack []*ssa.BasicBlock
+	pushSuccs := func(b *ssa.BasicBlock) {
+		for i, s := range b.Succs {
+			if cut[[2]int{b.Index, i}] {
+				continue
+			}
+			if !seen[s] {
+				seen[s] = true
+				stack = append(stack, s)
+			}
+		}
+	}
+	pushSuccs(from.Block())
+	for len(stack) > 0 {
+		b := stack[len(stack)-1]
+		stack = stack[:len(stack)-1]
+		if b == to.Block() {
+			reachedPlain = true
+			break
+		}
+		pushSuccs(b)
+	}
+	if reachedPlain {
+		return false
+	}
+	// is `to` reachable at all from `from`?
+	reachable = blockReachable(from.Block(), to.Block())
+	return reachable
 }
 
 // lastStoreBefore returns the last Store to address addr that precedes `at` in at's block; nil if none.
@@ -930,4 +1038,142 @@ func b2i(b bool) int {
 		return 1
 	}
 	return 0
+}
+
+// aliases returns v together with every load of a local cell whose only reaching store stored v (go/ssa keeps named
+// results and closure-captured locals in cells), and identity conversions of those.
+func aliases(v ssa.Value) []ssa.Value {
+	out := []ssa.Value{v}
+	seen := map[ssa.Value]bool{v: true}
+	for i := 0; i < len(out) && i < 64; i++ {
+		x := out[i]
+		refs := x.Referrers()
+		if refs == nil {
+			continue
+		}
+		for _, r := range *refs {
+			switch u := r.(type) {
+			case *ssa.Store:
+				cell, ok := u.Addr.(*ssa.Alloc)
+				if !ok || u.Val != x {
+					continue
+				}
+				crefs := cell.Referrers()
+				if crefs == nil {
+					continue
+				}
+				for _, cr := range *crefs {
+					ld, ok := cr.(*ssa.UnOp)
+					if !ok || ld.Op != token.MUL || seen[ld] {
+						continue
+					}
+					sts, zero, ok := reachingStores(cell, ld)
+					if ok && !zero && len(sts) == 1 && sts[0] == u {
+						seen[ld] = true
+						out = append(out, ld)
+					}
+				}
+			case *ssa.ChangeInterface:
+				if !seen[u] {
+					seen[u] = true
+					out = append(out, u)
+				}
+			case *ssa.ChangeType:
+				if !seen[u] {
+					seen[u] = true
+					out = append(out, u)
+				}
+			}
+		}
+	}
+	return out
+}
+
+// sameVal: a and b denote the same runtime value (modulo identity conversions and single-store cells).
+func sameVal(a, b ssa.Value) bool {
+	return stripValue(resolveLoad(stripValue(a))) == stripValue(resolveLoad(stripValue(b)))
+}
+
+// errResultOf returns the error-typed result value of a call (the call itself when it returns just error, the Extract
+// of the last component for tuples), or nil.
+func errResultOf(call *ssa.Call) ssa.Value {
+	sig := call.Call.Signature()
+	idx := errResultIndex(sig)
+	if idx < 0 {
+		return nil
+	}
+	if sig.Results().Len() == 1 {
+		return call
+	}
+	if ex := extractOf(call, idx); ex != nil {
+		return ex
+	}
+	return nil
+}
+
+// resultOf returns result idx of a call as a value (call itself for single-result calls).
+func resultOf(call *ssa.Call, idx int) ssa.Value {
+	sig := call.Call.Signature()
+	if sig.Results().Len() == 1 && idx == 0 {
+		return call
+	}
+	if ex := extractOf(call, idx); ex != nil {
+		return ex
+	}
+	return nil
+}
+
+// errNilEdgesOfCall: If edges on which the call's error result is nil (Val=true) or non-nil (Val=false).
+func errNilEdgesOfCall(call *ssa.Call) []CondEdge {
+	e := errResultOf(call)
+	if e == nil {
+		return nil
+	}
+	return nilEdges(e)
+}
+
+// dominatedByNilErr: instruction is dominated by an edge on which call's error is nil.
+func dominatedByNilErr(in ssa.Instruction, call *ssa.Call) bool {
+	for _, e := range errNilEdgesOfCall(call) {
+		if e.Val && instrDominatedByEdge(in, e) {
+			return true
+		}
+	}
+	return false
+}
+
+// phiLeaves expands a value through phis (and single-store cells) into its leaf definitions.
+func phiLeaves(v ssa.Value) []ssa.Value {
+	var out []ssa.Value
+	seen := map[ssa.Value]bool{}
+	var walk func(x ssa.Value)
+	walk = func(x ssa.Value) {
+		x = stripValue(x)
+		if seen[x] {
+			return
+		}
+		seen[x] = true
+		switch p := x.(type) {
+		case *ssa.Phi:
+			for _, e := range p.Edges {
+				walk(e)
+			}
+			return
+		case *ssa.UnOp:
+			if p.Op == token.MUL {
+				if cell, ok := p.X.(*ssa.Alloc); ok {
+					sts, zero, ok := reachingStores(cell, p)
+					if ok && !zero && len(sts) > 0 {
+						for _, st := range sts {
+							walk(st.Val)
+						}
+						return
+					}
+				}
+			}
+		}
+		out = append(out, x)
+	}
+	walk(v)
+	return out
 }
